@@ -3,7 +3,7 @@
    document, provided the re-rendered float literals behave like the originals ([leaves_ok])
    and no float literal sits at a position where its TEXT matters ([flok_*]). *)
 From Coq Require Import List ZArith Bool String Ascii Lia.
-From GZ Require Import C08.Model C17.Model C17.Hyps.
+From GZ Require Import C08.Model C17.Model C17.Hyps C17.ProofsE.
 Import ListNotations.
 Open Scope Z_scope.
 
@@ -159,10 +159,20 @@ Proof.
   intros [x|] [y|] H; simpl in *; try discriminate; auto. constructor. exact H.
 Qed.
 
+(* validateJsonNumberRange gives the same verdict on a literal and on its re-rendering *)
+Lemma range_sim : forall ro s s', rf_ok_lit s s' = true ->
+  rsim (fun _ _ : unit => True) (json_number_range fixed ro s') (json_number_range fixed ro s).
+Proof.
+  intros ro s s' Hok. unfold json_number_range. destruct (ro_range ro) as [r|]; [|simpl; exact I].
+  pose proof (lit_pf64 s s' Hok) as H.
+  destruct (parse_float false s') as [x|], (parse_float false s) as [y|]; simpl in *; try discriminate; auto.
+  rewrite (check_range_eq fixed r x y H). destruct (check_range fixed r y); simpl; exact I.
+Qed.
+
 (* field position: processFieldPrimitiveWithJSONNumber *)
 Lemma prim_json_number_sim : forall k ro s s',
   rf_ok_lit s s' = true -> float_at_field k s = true ->
-  (match k with KF32 | KF64 => ro_range ro = None /\ ro_options ro = [] | _ => True end) ->
+  (match k with KF32 | KF64 => ro_options ro = [] | _ => True end) ->
   rsim gsim (prim_json_number fixed k ro s') (prim_json_number fixed k ro s).
 Proof.
   intros k ro s s' Hok Hat Hro. unfold prim_json_number.
@@ -191,13 +201,15 @@ Proof.
     + rewrite H1. exists EConv. reflexivity.
     + rewrite H2. exists EConv. reflexivity.
   - (* float32 *)
-    destruct Hro as [Hr Ho]. unfold json_number_range, chk_options. rewrite Hr, Ho. simpl.
+    eapply rsim_bind with (R := fun _ _ : unit => True); [apply (range_sim ro s s' Hok)|].
+    intros [] [] _. unfold chk_options. rewrite Hro. simpl.
     pose proof (lit_pf32f s s' Hok) as H. unfold pf32_field in H.
     destruct (parse_float false s') as [x|], (parse_float false s) as [y|]; simpl in *;
       try (destruct (overflow32 x)); try (destruct (overflow32 y)); simpl in *; try discriminate; auto.
     constructor. exact H.
   - (* float64 *)
-    destruct Hro as [Hr Ho]. unfold json_number_range, chk_options. rewrite Hr, Ho. simpl.
+    eapply rsim_bind with (R := fun _ _ : unit => True); [apply (range_sim ro s s' Hok)|].
+    intros [] [] _. unfold chk_options. rewrite Hro. simpl.
     pose proof (lit_pf64 s s' Hok) as H.
     destruct (parse_float false s') as [x|], (parse_float false s) as [y|]; simpl in *; try discriminate; auto.
     constructor. exact H.
@@ -281,7 +293,7 @@ Proof. intros. unfold field_input, from_array. simpl. destruct (lookup key obj);
 End Shapes.
 
 Definition ro_fam (t : ftype) (ro : ropts) : Prop :=
-  ro_string ro = false /\ (is_float_deref t = true -> ro_range ro = None /\ ro_options ro = []).
+  ro_string ro = false /\ (is_float_deref t = true -> ro_options ro = []).
 
 Lemma resolve_fam : forall {A} c key o (obj : list (string * A)) ro t,
   resolve fixed c key o obj = Ok ro -> fam_opts t o = true -> ro_fam t ro.
@@ -290,7 +302,7 @@ Proof.
   - assert (Hw : forall b, ro_fam t (with_optional fixed o' b)).
     { intro b. unfold ro_fam, with_optional. simpl. simpl in Hf. apply andb_prop in Hf. destruct Hf as [Hs Hfl].
       split. - apply negb_true_iff in Hs. exact Hs.
-      - intro Hd. rewrite Hd in Hfl. destruct (o_range o'); try discriminate. destruct (o_options o'); try discriminate. auto. }
+      - intro Hd. rewrite Hd in Hfl. destruct (o_options o'); try discriminate. auto. }
     destruct (o_optional o').
     + destruct (o_dep o') as [[neg dep]|].
       * destruct (String.eqb dep "").
@@ -328,10 +340,22 @@ Definition P_type (t : ftype) : Prop :=
   (forall inmap d, leaves_ok rf d = true -> flok_elem t d = true ->
      rsim gsim (um_elem fixed ccfg inmap t (S d)) (um_elem fixed ccfg inmap t (J d))).
 
+Definition psim (a b : list gval * bool) : Prop := Forall2 gsim (fst a) (fst b) /\ snd a = snd b.
+
 Definition P_fields (fs : fields) : Prop :=
   fam_fields fs = true ->
   forall m, leaves_ok_map rf m = true -> flok_fields fs m = true ->
-    rsim (Forall2 gsim) (um_fields fixed ccfg fs (shape_map rf f m)) (um_fields fixed ccfg fs (shape_map rf FJson m)).
+    rsim (Forall2 gsim) (um_fields fixed ccfg fs (shape_map rf f m)) (um_fields fixed ccfg fs (shape_map rf FJson m)) /\
+    forall filled,
+      rsim psim (um_opt_members fixed ccfg fs (shape_map rf f m) filled)
+                (um_opt_members fixed ccfg fs (shape_map rf FJson m) filled).
+
+Lemma any_present_shape : forall fs g g' m,
+  any_present fs (shape_map rf g m) = any_present fs (shape_map rf g' m).
+Proof.
+  induction fs as [|key o t rest IH|opt ptr inner IHi rest IHr]; intros g g' m; simpl; auto.
+  rewrite (has_shape rf g), (has_shape rf g'), (IH g g' m). reflexivity.
+Qed.
 
 (* slices *)
 Lemma slice_sim : forall (F : jv -> result gval) (ok : doc -> bool) z,
@@ -425,44 +449,74 @@ Proof.
     intros fs IH Hfam. simpl in Hfam. specialize (IH Hfam). split.
     + intros ro d _ Hl Hat. simpl.
       destruct d; simpl in *; try discriminate; try apply rsim_refl; try exact I; try apply gsim_refl.
-      apply rsim_rmap with (R := Forall2 gsim). * apply IH; auto. * intros a b Hab. constructor. exact Hab.
+      apply rsim_rmap with (R := Forall2 gsim). * apply (IH m); auto. * intros a b Hab. constructor. exact Hab.
     + intros inmap d Hl Hat. simpl.
       destruct d; simpl in *; try discriminate; try apply rsim_refl; try exact I; try apply gsim_refl.
-      apply rsim_rmap with (R := Forall2 gsim). * apply IH; auto. * intros a b Hab. constructor. exact Hab.
+      apply rsim_rmap with (R := Forall2 gsim). * apply (IH m); auto. * intros a b Hab. constructor. exact Hab.
   - (* FNil *)
-    intros _ m _ _. simpl. constructor.
+    intros _ m _ _. split; [simpl; constructor|]. intro filled. simpl. split; [constructor | reflexivity].
   - (* FCons *)
     intros key o t IHt rest IHr Hfam m Hl Hat.
     simpl in Hfam. apply andb_prop in Hfam. destruct Hfam as [Hfam Hfr]. apply andb_prop in Hfam. destruct Hfam as [Hfo Hft].
     simpl in Hat. apply andb_prop in Hat. destruct Hat as [Hat1 Hat2].
-    destruct (IHt Hft) as [IHp _].
-    simpl um_fields. eapply rsim_bind with (R := gsim).
-    + rewrite !field_input_ccfg, !lookup_shape, (resolve_shape rf fixed true key o f FJson m).
-      destruct (opts_ok o); simpl; [|exact I].
-      destruct (resolve fixed true key o (shape_map rf FJson m)) as [ro|e|] eqn:Hres; simpl; try exact I.
-      pose proof (resolve_fam _ _ _ _ _ t Hres Hfo) as Hro.
-      destruct (dlookup key m) as [x|] eqn:Hlk; simpl.
-      * pose proof (leaves_lookup rf key m x Hl Hlk) as Hlx.
-        destruct x; simpl in Hlx; try discriminate; simpl;
-          try apply rsim_refl.
-        -- apply (IHp ro (DFloat s) Hro Hlx Hat1).
-        -- apply (IHp ro (DList l) Hro Hlx Hat1).
-        -- apply (IHp ro (DMap m0) Hro Hlx Hat1).
-      * apply rsim_refl.
-    + intros a b Hab. eapply rsim_bind with (R := Forall2 gsim).
-      * apply IHr; auto.
-      * intros xs ys Hxy. simpl. constructor; auto.
+    destruct (IHt Hft) as [IHp _]. destruct (IHr Hfr m Hl Hat2) as [IHr1 IHr2].
+    split.
+    + simpl um_fields. eapply rsim_bind with (R := gsim).
+      * rewrite !field_input_ccfg, !lookup_shape, (resolve_shape rf fixed true key o f FJson m).
+        destruct (opts_ok o); simpl; [|exact I].
+        destruct (resolve fixed true key o (shape_map rf FJson m)) as [ro|e|] eqn:Hres; simpl; try exact I.
+        pose proof (resolve_fam _ _ _ _ _ t Hres Hfo) as Hro.
+        destruct (dlookup key m) as [x|] eqn:Hlk; simpl.
+        -- pose proof (leaves_lookup rf key m x Hl Hlk) as Hlx.
+           destruct x; simpl in Hlx; try discriminate; simpl;
+             try apply rsim_refl.
+           ++ apply (IHp ro (DFloat s) Hro Hlx Hat1).
+           ++ apply (IHp ro (DList l) Hro Hlx Hat1).
+           ++ apply (IHp ro (DMap m0) Hro Hlx Hat1).
+        -- apply rsim_refl.
+      * intros a b Hab. eapply rsim_bind with (R := Forall2 gsim).
+        -- exact IHr1.
+        -- intros xs ys Hxy. simpl. constructor; auto.
+    + intro filled. simpl um_opt_members.
+      eapply rsim_bind with (R := fun a b : gval * bool => gsim (fst a) (fst b) /\ snd a = snd b).
+      * rewrite !field_input_ccfg, !lookup_shape, (resolve_shape rf fixed true key o f FJson m), !(has_shape rf).
+        destruct (opts_ok o); simpl; [|exact I].
+        destruct (resolve fixed true key o (shape_map rf FJson m)) as [ro|e|] eqn:Hres; simpl; try exact I.
+        pose proof (resolve_fam _ _ _ _ _ t Hres Hfo) as Hro.
+        eapply rsim_bind with (R := gsim).
+        -- destruct (dlookup key m) as [x|] eqn:Hlk; simpl.
+           ++ pose proof (leaves_lookup rf key m x Hl Hlk) as Hlx.
+              destruct x; simpl in Hlx; try discriminate; simpl;
+                try apply rsim_refl.
+              ** apply (IHp ro (DFloat s) Hro Hlx Hat1).
+              ** apply (IHp ro (DList l) Hro Hlx Hat1).
+              ** apply (IHp ro (DMap m0) Hro Hlx Hat1).
+           ++ apply rsim_refl.
+        -- intros a b Hab. simpl. split; auto.
+      * intros a b [Hab1 Hab2]. eapply rsim_bind with (R := psim).
+        -- apply IHr2.
+        -- intros xs ys [Hxy1 Hxy2]. unfold psim. simpl. split; [constructor; auto | rewrite Hab2, Hxy2; reflexivity].
   - (* FEmbed *)
     intros opt ptr inner IHi rest IHr Hfam m Hl Hat.
-    simpl in Hfam. apply andb_prop in Hfam. destruct Hfam as [Hfam Hfr]. apply andb_prop in Hfam. destruct Hfam as [Hopt Hfi].
-    apply negb_true_iff in Hopt. subst opt.
+    simpl in Hfam. apply andb_prop in Hfam. destruct Hfam as [Hfi Hfr].
     simpl in Hat. apply andb_prop in Hat. destruct Hat as [Hat1 Hat2].
-    simpl um_fields. eapply rsim_bind with (R := gsim).
-    + eapply rsim_bind with (R := Forall2 gsim). * apply IHi; auto.
-      * intros xs ys Hxy. simpl. destruct ptr; repeat constructor; exact Hxy.
-    + intros a b Hab. eapply rsim_bind with (R := Forall2 gsim).
-      * apply IHr; auto.
-      * intros xs ys Hxy. simpl. constructor; auto.
+    destruct (IHi Hfi m Hl Hat1) as [IHi1 IHi2]. destruct (IHr Hfr m Hl Hat2) as [IHr1 IHr2].
+    split.
+    + simpl um_fields. eapply rsim_bind with (R := gsim).
+      * destruct opt.
+        -- rewrite (any_present_shape inner f FJson m).
+           eapply rsim_bind with (R := psim). ++ apply IHi2.
+           ++ intros a b [Hab1 Hab2]. rewrite Hab2.
+              destruct (negb (any_present inner (shape_map rf FJson m)) || snd b); simpl; [|exact I].
+              destruct ptr; [destruct (any_present inner (shape_map rf FJson m))|]; repeat constructor; exact Hab1.
+        -- eapply rsim_bind with (R := Forall2 gsim). ++ exact IHi1.
+           ++ intros xs ys Hxy. simpl. destruct ptr; repeat constructor; exact Hxy.
+      * intros a b Hab. eapply rsim_bind with (R := Forall2 gsim).
+        -- exact IHr1.
+        -- intros xs ys Hxy. simpl. constructor; auto.
+    + intro filled. simpl um_opt_members. eapply rsim_bind with (R := psim).
+      * apply IHr2.
+      * intros xs ys [Hxy1 Hxy2]. unfold psim. simpl. split; [constructor; auto using gsim_refl | rewrite Hxy2; reflexivity].
 Qed.
 
 End Main.
@@ -566,7 +620,7 @@ Proof.
     destruct (lc_commute rf f) as [_ [_ Cf]]. destruct (lc_commute rf FJson) as [_ [_ Cj]].
     rewrite Cf, Cj. unfold unmarshal.
     apply rsim_rmap with (R := Forall2 gsim).
-    + destruct (main_mutual rf f Hf) as [_ HP]. apply HP.
+    + destruct (main_mutual rf f Hf) as [_ HP]. apply (HP (lower_fields T)).
       * destruct fam_lower as [_ H]. rewrite H. exact Hfam.
       * destruct (leaves_lc rf) as [_ [_ H]]. apply H. exact Hl.
       * exact Hpos.
